@@ -321,6 +321,9 @@ def main(ctx):
     rnd = random.Random(ctx.seed)
     drv = vlib.build_driver(ctx, "d_cert", clocks=CLOCKS)
     if getattr(ctx, "replay", None):
+        from props import extra_ba
+        if extra_ba.is_ba_replay(ctx.replay):
+            return vlib.finish(ctx, "model_checking", extra_ba.replay(ctx), assumptions=ASSUMPTIONS)
         return replay(ctx, drv)
 
     # 1. bounded models: property invariants on every case, export
@@ -394,4 +397,9 @@ def main(ctx):
                          "without any signature; this satisfies accept-iff-quorum for the code's own Required and is not a C07 verdict" % vac["required<=0"])
     if total_drift:
         ctx.notes.append("conformance_drift: %d lines where the real answer differs from the implementation-shaped prediction without breaking a clause" % total_drift)
+    # growth module: the agreement protocol that PRODUCES certificates (BA.tla; N real engines running the real loop())
+    ba = vlib.run_extra(ctx, "extra_ba", quick)
+    cov["agreement_protocol"] = ba
+    cov["states"] += ba.get("ba_states", 0) if isinstance(ba.get("ba_states", 0), int) else 0
+    cov["transitions"] += ba.get("ba_transitions", 0) if isinstance(ba.get("ba_transitions", 0), int) else 0
     return vlib.finish(ctx, "model_checking", cov, assumptions=ASSUMPTIONS)
